@@ -390,9 +390,25 @@ def rule_capacity(prog, res):
                         if leaves.get(1) is True and leaves.get(0) is False:
                             ok = True
                             d = "leaves the loop on the first Err of try_push (match on the result)"
-            # all characters are offered in order: the loop is driven by the input iterator; try_push is the only mutation
-            muts = [callee_of(tt) for bb, tt in f.calls() if fa.call_args(bb) and fa.call_args(bb)[0].op == "ref" and ty_of(fa.call_args(bb)[0]) is None
-                    and callee_of(tt) not in (tp,) and "next" not in callee_of(tt)]
+            # all characters are offered in order: the loop is driven by the input iterator itself - chars() of the argument, or the argument
+            # iterator - through into_iter only; an adaptor that limits, skips or filters (take, skip, step_by, filter ..) drops characters
+            nxs = [(bb, tt) for bb, tt in f.calls() if bb in body and (callee_of(tt) or "").endswith("::next")]
+            drive = False
+            if len(nxs) == 1:
+                src = libmodel.iterator_source(fa.call_term(nxs[0][0]), fa)
+                if src is not None:
+                    y = src[0]
+                    chain = []
+                    while y.op == "call" and y.args[1] and len(chain) < 6:
+                        chain.append(y.args[0])
+                        y = y.args[1][0]
+                    while y.op in ("ref", "mem", "memval"):
+                        y = y.args[0]
+                    plain = all(c.endswith("::into_iter") or c == "core::str::<impl str>::chars" for c in chain)
+                    drive = plain and y.op == "arg"
+            if ok and not drive:
+                ok = False
+                d = "the loop is not driven by the input's own iterator (an adaptor limits or filters the characters offered)"
         if not ok and path.endswith("From<&str>>::from"):
             # = value.chars().collect(): the loop is the one of FromIterator<char> (checked above)
             calls = [callee_of(tt) for bb, tt in f.calls()]
